@@ -4,14 +4,22 @@ EXTENDS Handshake, Json
 B == {TRUE, FALSE}
 G(same) == IF same THEN "g1" ELSE "g2"
 AcceptCases ==
-  {[role |-> "accept", lv |-> l, rv |-> r, same_genesis |-> sg, nonce_in_ring |-> nr,
+  {[role |-> "accept", lv |-> l, rv |-> r, same_genesis |-> sg, nonce_in_ring |-> nr, extra |-> x,
     expect |-> AcceptOutcome(l, "g1", IF nr THEN <<5, 7>> ELSE <<5>>,
-                             [version |-> r, genesis |-> G(sg), nonce |-> 7])]
-     : l \in Versions, r \in Versions, sg \in B, nr \in B}
+                             [version |-> r, genesis |-> G(sg), nonce |-> 7, extra |-> x])]
+     : l \in Versions, r \in Versions, sg \in B, nr \in B, x \in {0}}
+  \cup \* a Hand frame whose body is longer than the message (1 byte, up to the 4 x 128 limit)
+  {[role |-> "accept", lv |-> 1000, rv |-> r, same_genesis |-> TRUE, nonce_in_ring |-> FALSE, extra |-> x,
+    expect |-> AcceptOutcome(1000, "g1", <<5>>, [version |-> r, genesis |-> "g1", nonce |-> 7, extra |-> x])]
+     : r \in {1, 1000}, x \in {1, 300}}
 InitiateCases ==
-  {[role |-> "initiate", lv |-> l, rv |-> r, same_genesis |-> sg, nonce_in_ring |-> FALSE,
-    expect |-> InitiateOutcome(l, "g1", [version |-> r, genesis |-> G(sg), nonce |-> 0])]
+  {[role |-> "initiate", lv |-> l, rv |-> r, same_genesis |-> sg, nonce_in_ring |-> FALSE, extra |-> 0,
+    expect |-> InitiateOutcome(l, "g1", [version |-> r, genesis |-> G(sg), nonce |-> 0, extra |-> 0])]
      : l \in Versions, r \in Versions, sg \in B}
+  \cup
+  {[role |-> "initiate", lv |-> 1000, rv |-> r, same_genesis |-> TRUE, nonce_in_ring |-> FALSE, extra |-> x,
+    expect |-> InitiateOutcome(1000, "g1", [version |-> r, genesis |-> "g1", nonce |-> 0, extra |-> x])]
+     : r \in {1, 1000}, x \in {1, 250}}
 EmitInit == Init /\ ver = [n \in Nodes |-> 1000] /\ gen = [n \in Nodes |-> "g1"]
 EmitSpec == EmitInit /\ [][FALSE]_vars
 Emit == \A x \in AcceptCases \cup InitiateCases : PrintT(<<"HSCASE", ToJson(x)>>)
